@@ -97,10 +97,8 @@ def run(ctx):
     ok_prog = [e for e in events if e["rc"] == 0]
     ctx.sample({"program": cases[0][2], "classes": [(m["mod"], m["cls"], len(m["fields"])) for m in events[0]["obs"]["messages"]]})
     # programs protoc itself rejects are generator noise, not plugin failures: protoc's error text says so
-    rejected = [e for e in events if e["rc"] != 0 and "python_betterproto" not in e["err"] and "Traceback" not in e["err"]]
-    judged = [e for e in events if e not in rejected]
+    judged, = protoc.drop_rejected(ctx, events)
     ctx.notes["programs"] = len(judged)
-    ctx.notes["rejected_by_protoc_front_end"] = len(rejected)
     ctx.notes["repository_corpus_programs"] = len(corpus)
     for e in judged:
         e.pop("stubs", None)
